@@ -81,7 +81,9 @@ def steady_state_transport_solver(
     u, v, Kx, Ky, Kz = profiles
     xmx, ymx = domain
     nlx, nly = modes
-    xm, ym = meas_pt
+    # plain floats: a numpy float32 coordinate would otherwise drag the phase
+    # arithmetic below (xm + px * dx) down to single precision
+    xm, ym = (float(c) for c in meas_pt)
 
     # Check if modes are even
     if (nlx % 2 > 0) or (nly % 2 > 0):
